@@ -377,8 +377,9 @@ import nucs.heuristics.heuristics as H
 from nucs.solvers.consistency_algorithms import CONSISTENCY_ALG_BC, CONSISTENCY_ALG_SHAVING
 height, nvars, heur, shaving = %(height)r, %(nvars)r, %(heur)r, %(shaving)r
 try:
-    s = BacktrackSolver(Problem([(0, 1)] * nvars), consistency_alg_idx=CONSISTENCY_ALG_SHAVING if shaving else CONSISTENCY_ALG_BC,
-                        dom_heuristic_idx=getattr(H, "DOM_HEURISTIC_" + heur.upper()), dom_heuristic_params=[[1, 1]] * nvars if heur == "min_cost" else [[]],
+    width = 2 if heur in ("mid_value", "min_cost") else 1
+    s = BacktrackSolver(Problem([(0, width)] * nvars), consistency_alg_idx=CONSISTENCY_ALG_SHAVING if shaving else CONSISTENCY_ALG_BC,
+                        dom_heuristic_idx=getattr(H, "DOM_HEURISTIC_" + heur.upper()), dom_heuristic_params=[[2, 1, 2]] * nvars if heur == "min_cost" else [[]],
                         stack_max_height=height, log_level="CRITICAL")
     first = next(iter(s.solve()))
     print("RETURNED first solution", first.tolist()[:8], "... depth", s.get_statistics()["SOLVER_CHOICE_DEPTH"])
@@ -473,6 +474,24 @@ def real_history(pb, kw, history):
             pb.split(2, 0)
         elif h == "init_twice":
             pb.init()
+        elif h == "sibling_problem":
+            from nucs.problems.problem import Problem
+
+            sib = Problem([(0, 1)] * len(pb.shr_domains_lst), list(pb.dom_indices_lst), [0] * len(pb.dom_indices_lst))
+            for pv, alg, params in pb.propagators:
+                if alg == P.ALG_RELATION:
+                    sib.add_propagator((list(pv), alg, [0] * len(pv)))
+                elif alg == P.ALG_ELEMENT_IV:
+                    sib.add_propagator((list(pv), alg, [0]))
+                elif alg == P.ALG_GCC:
+                    sib.add_propagator((list(pv), alg, [0, 0, len(pv)]))
+                else:
+                    sib.add_propagator((list(pv), alg, list(params)))
+            it = BacktrackSolver(sib, **kw).solve()
+            try:
+                next(it)
+            except StopIteration:
+                pass
 
 
 def run_real(w, limit=10000):
@@ -530,11 +549,18 @@ def replay_solve(r):
     st, res = _run_real_watchdog(r, float(os.environ.get("NUSYM_WATCHDOG_S", "30")))
     if kind == "budget":
         return st == "timeout", f"real run: {st}"
-    if st == "timeout":
+    if st == "timeout" and not kind.startswith("obligation"):
         return False, "real run timed out"
-    if st == "error":
-        if kind.startswith("obligation"):
+    if kind.startswith("obligation"):
+        # the symbolic run hit an index/dtype obligation: on the real build this is an exception (interpreted), a hang or garbage
+        if st == "timeout":
+            return True, "real run did not return within the watchdog"
+        if st == "error":
             return True, f"real run failed: {res}"
+        sols, stats = res
+        sem = semantic_solutions(r)
+        return any(s_ not in sem for s_ in sols), f"real={sols[:4]} semantic={sem[:4]}"
+    if st == "error":
         return False, f"real run failed: {res}"
     sols, stats = res
     sem = semantic_solutions(r)
@@ -652,6 +678,9 @@ def replay_lemma(r):
             for d in range(len(r["doms"])):
                 if int(pb.triggers[d, q]) != want.get(d, 0):
                     fails.add("trigger-mask-is-not-the-union-of-declared-masks")
+        cx = [P.GET_COMPLEXITY_FCTS[p[1]](len(p[0]), np.array(p[2], dtype=np.int32)) for p in pb.propagators]
+        if any(cx[i] > cx[i + 1] for i in range(len(cx) - 1)):
+            fails.add("not-sorted-by-complexity")
         snap = {k: getattr(pb, k).copy() for k in ("algorithms", "var_bounds", "param_bounds", "props_dom_indices", "props_dom_offsets", "props_parameters", "triggers")}
         pb.init()
         if any(a.shape != getattr(pb, k).shape or (a != getattr(pb, k)).any() for k, a in snap.items()):
@@ -795,6 +824,11 @@ _replay_solve_basic = replay_solve
 
 def replay_solve(r):  # noqa: F811
     kind = r["kind"]
+    if kind.startswith("different-") and r.get("history"):
+        # two fresh interpreters: one solves at once, the other goes through the history first
+        a = _run_real_watchdog(dict(r, history=[]), 120)
+        b = _run_real_watchdog(r, 120)
+        return a != b, f"fresh process: {str(a)[:300]} ... after history {r['history']}: {str(b)[:300]}"
     if r.get("prop") == "C08" and kind in ("pass-grew-or-emptied-a-domain", "solved-status-mismatch", "enabled-propagator-fails-at-exit", "not-a-fixpoint-at-exit"):
         if not os.environ.get("NUMBA_DISABLE_JIT"):
             return False, "pass-level probes need the interpreted mode"
